@@ -1,0 +1,305 @@
+//! Verification hook (`--cfg folo_verif` only, never part of a normal build).
+//!
+//! Lets an out-of-tree harness run the real Linux platform abstraction layer over a
+//! caller-supplied in-memory filesystem and a fake thread affinity syscall, build a
+//! `SystemHardware` from it, and exercise the affinity mask type directly.
+
+use std::collections::BTreeMap;
+use std::io;
+use std::num::NonZero;
+use std::sync::{Arc, Mutex};
+
+use libc::c_ulong;
+
+use crate::SystemHardware;
+use crate::pal::PlatformFacade;
+use crate::pal::linux::{
+    Bindings, BindingsFacade, BuildTargetPlatform, CpuMask, Filesystem, FilesystemFacade,
+};
+
+/// An in-memory stand-in for the kernel's virtual filesystem, keyed by the absolute paths that
+/// the real filesystem bindings read.
+#[derive(Clone, Debug, Default)]
+pub struct MemoryFilesystem {
+    files: BTreeMap<String, String>,
+}
+
+impl MemoryFilesystem {
+    /// Creates a filesystem with no files in it.
+    #[must_use]
+    pub fn new() -> Self {
+        Self::default()
+    }
+
+    /// Adds (or replaces) a file.
+    pub fn insert(&mut self, path: impl AsRef<str>, contents: impl Into<String>) {
+        self.files
+            .insert(normalize_path(path.as_ref()), contents.into());
+    }
+
+    fn read(&self, path: &str) -> Option<String> {
+        self.files.get(&normalize_path(path)).cloned()
+    }
+}
+
+/// Collapses repeated separators the way the real filesystem does (a cgroup name starts with a
+/// separator of its own, so the paths built from one contain doubled separators).
+fn normalize_path(path: &str) -> String {
+    let mut normalized = String::with_capacity(path.len());
+
+    for c in path.chars() {
+        if c == '/' && normalized.ends_with('/') {
+            continue;
+        }
+
+        normalized.push(c);
+    }
+
+    normalized
+}
+
+impl Filesystem for MemoryFilesystem {
+    fn get_cpuinfo_contents(&self) -> String {
+        self.read("/proc/cpuinfo")
+            .expect("failed to read /proc/cpuinfo - cannot continue execution")
+    }
+
+    fn get_possible_cpus_contents(&self) -> Option<String> {
+        self.read("/sys/devices/system/cpu/possible")
+    }
+
+    fn get_online_cpus_contents(&self) -> Option<String> {
+        self.read("/sys/devices/system/cpu/online")
+    }
+
+    fn get_numa_node_possible_contents(&self) -> Option<String> {
+        self.read("/sys/devices/system/node/possible")
+    }
+
+    fn get_numa_node_cpulist_contents(&self, node_index: u32) -> Option<String> {
+        self.read(&format!(
+            "/sys/devices/system/node/node{node_index}/cpulist"
+        ))
+    }
+
+    fn get_cpu_online_contents(&self, cpu_index: u32) -> Option<String> {
+        self.read(&format!("/sys/devices/system/cpu/cpu{cpu_index}/online"))
+    }
+
+    fn get_proc_self_status_contents(&self) -> String {
+        self.read("/proc/self/status")
+            .expect("failed to read /proc/self/status - cannot continue execution")
+    }
+
+    fn get_proc_self_cgroup(&self) -> Option<String> {
+        self.read("/proc/self/cgroup")
+    }
+
+    fn get_v1_cgroup_cpu_quota(&self, cgroup_name: &str) -> Option<String> {
+        self.read(&format!(
+            "/sys/fs/cgroup/cpu/{cgroup_name}/cpu.cfs_quota_us"
+        ))
+    }
+
+    fn get_v1_cgroup_cpu_period(&self, cgroup_name: &str) -> Option<String> {
+        self.read(&format!(
+            "/sys/fs/cgroup/cpu/{cgroup_name}/cpu.cfs_period_us"
+        ))
+    }
+
+    fn get_v2_cgroup_cpu_quota_and_period(&self, cgroup_name: &str) -> Option<String> {
+        self.read(&format!("/sys/fs/cgroup/{cgroup_name}/cpu.max"))
+    }
+}
+
+/// A fake of the kernel side of the thread affinity syscalls.
+///
+/// It works on raw mask words only, the way the kernel does, so that nothing it reports or
+/// records has passed through the bit arithmetic of the mask type under verification.
+#[derive(Debug)]
+pub struct FakeAffinity {
+    /// Width of the kernel's own mask: a read into a narrower buffer is refused with `EINVAL`.
+    kernel_words: usize,
+
+    /// The affinity of the (one) thread, as raw words, at most `kernel_words` long.
+    affinity: Mutex<Vec<c_ulong>>,
+
+    /// What `sched_getcpu()` answers.
+    current_cpu: i32,
+
+    /// The raw words of every mask handed to `sched_setaffinity()`, in call order.
+    set_calls: Mutex<Vec<Vec<c_ulong>>>,
+
+    /// The width in words of every buffer offered to `sched_getaffinity()`, in call order.
+    get_calls: Mutex<Vec<usize>>,
+}
+
+impl FakeAffinity {
+    /// Creates a fake kernel whose affinity mask is `kernel_words` wide and initially holds the
+    /// given raw words (anything beyond `kernel_words` is discarded).
+    #[must_use]
+    pub fn new(kernel_words: usize, mut affinity: Vec<c_ulong>, current_cpu: i32) -> Self {
+        affinity.truncate(kernel_words);
+
+        Self {
+            kernel_words,
+            affinity: Mutex::new(affinity),
+            current_cpu,
+            set_calls: Mutex::new(Vec::new()),
+            get_calls: Mutex::new(Vec::new()),
+        }
+    }
+
+    /// The raw words of every mask handed to `sched_setaffinity()` so far.
+    #[must_use]
+    pub fn set_calls(&self) -> Vec<Vec<c_ulong>> {
+        self.set_calls.lock().expect("never poisoned").clone()
+    }
+
+    /// The width in words of every buffer offered to `sched_getaffinity()` so far.
+    #[must_use]
+    pub fn get_calls(&self) -> Vec<usize> {
+        self.get_calls.lock().expect("never poisoned").clone()
+    }
+}
+
+fn raw_words_of(mask: &CpuMask) -> Vec<c_ulong> {
+    let words = mask.len_bytes().div_euclid(size_of::<c_ulong>());
+
+    // SAFETY: The mask owns `len_bytes()` bytes of initialized words starting at `as_ptr()`,
+    // which stay valid and unchanged for as long as we hold the shared reference.
+    unsafe { std::slice::from_raw_parts(mask.as_ptr(), words) }.to_vec()
+}
+
+impl Bindings for FakeAffinity {
+    fn sched_setaffinity_current(&self, mask: &CpuMask) -> Result<(), io::Error> {
+        let mut words = raw_words_of(mask);
+
+        self.set_calls
+            .lock()
+            .expect("never poisoned")
+            .push(words.clone());
+
+        // The kernel treats processors beyond the width of the mask as absent from the set and
+        // ignores bits beyond its own width.
+        words.truncate(self.kernel_words);
+        *self.affinity.lock().expect("never poisoned") = words;
+
+        Ok(())
+    }
+
+    fn sched_getaffinity_current(&self, words: NonZero<usize>) -> Result<CpuMask, io::Error> {
+        self.get_calls
+            .lock()
+            .expect("never poisoned")
+            .push(words.get());
+
+        if words.get() < self.kernel_words {
+            return Err(io::Error::from_raw_os_error(libc::EINVAL));
+        }
+
+        let mut mask = CpuMask::with_words(words);
+        let affinity = self.affinity.lock().expect("never poisoned");
+
+        assert!(affinity.len() <= words.get());
+
+        // SAFETY: The mask owns at least `words` words starting at `as_mut_ptr()`, we hold the
+        // only reference to it, and we write no more than `affinity.len() <= words` words.
+        unsafe {
+            std::ptr::copy_nonoverlapping(affinity.as_ptr(), mask.as_mut_ptr(), affinity.len());
+        }
+
+        Ok(mask)
+    }
+
+    fn sched_getcpu(&self) -> i32 {
+        self.current_cpu
+    }
+}
+
+/// Builds a `SystemHardware` from the real Linux platform running over the supplied filesystem
+/// and affinity syscalls.
+///
+/// Panics exactly where the platform would panic when handed the same contents by the kernel.
+#[must_use]
+pub fn linux_hardware(filesystem: MemoryFilesystem, bindings: Arc<FakeAffinity>) -> SystemHardware {
+    let platform = BuildTargetPlatform::new(
+        BindingsFacade::from_verif(bindings),
+        FilesystemFacade::from_verif(Arc::new(filesystem)),
+    );
+
+    SystemHardware::verif_from_platform(PlatformFacade::Verif(Arc::new(platform)))
+}
+
+/// The platform's affinity mask type, with its crate-internal API made reachable.
+#[derive(Clone, Debug, Eq, PartialEq)]
+pub struct VerifCpuMask(CpuMask);
+
+impl VerifCpuMask {
+    /// `CpuMask::new()`.
+    #[must_use]
+    pub fn new() -> Self {
+        Self(CpuMask::new())
+    }
+
+    /// `CpuMask::with_words()`.
+    #[must_use]
+    pub fn with_words(words: NonZero<usize>) -> Self {
+        Self(CpuMask::with_words(words))
+    }
+
+    /// `CpuMask::default_words()`.
+    #[must_use]
+    pub fn default_words() -> NonZero<usize> {
+        CpuMask::default_words()
+    }
+
+    /// `CpuMask::insert()`.
+    pub fn insert(&mut self, processor_id: u32) {
+        self.0.insert(processor_id);
+    }
+
+    /// `CpuMask::processor_ids()`, collected.
+    #[must_use]
+    pub fn processor_ids(&self) -> Vec<u32> {
+        self.0.processor_ids().collect()
+    }
+
+    /// `CpuMask::len_bytes()`.
+    #[must_use]
+    pub fn len_bytes(&self) -> usize {
+        self.0.len_bytes()
+    }
+
+    /// The words that the operating system would see through `as_ptr()` / `len_bytes()`.
+    #[must_use]
+    pub fn raw_words(&self) -> Vec<c_ulong> {
+        raw_words_of(&self.0)
+    }
+
+    /// A mask of exactly `raw.len()` words filled the way the operating system fills one:
+    /// through `as_mut_ptr()`, bypassing `insert()`.
+    ///
+    /// # Panics
+    ///
+    /// Panics if `raw` is empty.
+    #[must_use]
+    pub fn from_raw_words(raw: &[c_ulong]) -> Self {
+        let mut mask =
+            CpuMask::with_words(NonZero::new(raw.len()).expect("a mask is at least one word wide"));
+
+        // SAFETY: The mask owns exactly `raw.len()` words starting at `as_mut_ptr()` and we hold
+        // the only reference to it.
+        unsafe {
+            std::ptr::copy_nonoverlapping(raw.as_ptr(), mask.as_mut_ptr(), raw.len());
+        }
+
+        Self(mask)
+    }
+}
+
+impl Default for VerifCpuMask {
+    fn default() -> Self {
+        Self::new()
+    }
+}
